@@ -1,7 +1,7 @@
 package sim
 
 import (
-	"math/rand/v2"
+	"math/bits"
 )
 
 // Chooser is the single source of every decision in a run (DESIGN.md 2.5).
@@ -10,7 +10,11 @@ import (
 // out-of-range value) it answers deterministically from the value at hand.
 // It never reads a clock and logging never draws from it.
 type Chooser struct {
-	rng       *rand.Rand
+	// splitmix64 state: the generator lives here (not math/rand) because the
+	// chooser is called from every simulated goroutine and from the scheduler,
+	// and in the -race build only //go:norace code may touch shared state
+	// without adding or needing happens-before edges
+	s0        uint64
 	replay    []uint32
 	pos       int
 	replaying bool
@@ -22,7 +26,7 @@ const maxChoices = 1 << 22
 
 // NewChooser returns a search-mode chooser.
 func NewChooser(seed, run uint64) *Chooser {
-	return &Chooser{rng: rand.New(rand.NewPCG(seed, run*0x9E3779B97F4A7C15+1)), rec: make([]uint32, 1<<16)}
+	return &Chooser{s0: seed*0xD1342543DE82EF95 ^ (run*0x9E3779B97F4A7C15 + 0x2545F4914F6CDD1D), rec: make([]uint32, 1<<16)}
 }
 
 // NewReplayChooser returns a replay-mode chooser.
@@ -46,7 +50,7 @@ func (c *Chooser) Intn(n int, label string) int {
 			v = 0
 		}
 	} else {
-		v = c.rng.IntN(n)
+		v = c.intn(n)
 	}
 	if c.nrec < maxChoices {
 		if c.nrec >= len(c.rec) {
@@ -62,6 +66,30 @@ func (c *Chooser) Intn(n int, label string) int {
 		c.nrec++
 	}
 	return v
+}
+
+//go:norace
+func (c *Chooser) next() uint64 {
+	c.s0 += 0x9E3779B97F4A7C15
+	z := c.s0
+	z = (z ^ (z >> 30)) * 0xBF58476D1CE4E5B9
+	z = (z ^ (z >> 27)) * 0x94D049BB133111EB
+	return z ^ (z >> 31)
+}
+
+// intn: unbiased (Lemire's multiply-shift with rejection).
+//
+//go:norace
+func (c *Chooser) intn(n int) int {
+	un := uint64(n)
+	hi, lo := bits.Mul64(c.next(), un)
+	if lo < un {
+		t := -un % un
+		for lo < t {
+			hi, lo = bits.Mul64(c.next(), un)
+		}
+	}
+	return int(hi)
 }
 
 // Recorded returns the choices made so far.
